@@ -1,13 +1,14 @@
 (* C16/Nicks.v — the nick mutators of IrcUser never leave a state users.conf cannot represent *)
 From Coq Require Import List NArith ZArith Bool.
 Import ListNotations.
-Require Import Base.Wire Base.PyStr C16.Model.
+Require Import Base.Wire Base.PyStr C16.Model C16.Lemmas C16.Roundtrip C16.Files.
 Require gen.T16.
 Open Scope N_scope.
 
 (* statement order pinned from the source *)
 Lemma addnick_checks_first : gen.T16.ADDNICK_LIST_BEFORE_CHECK = false. Proof. reflexivity. Qed.
 Lemma removenick_drops_empty : gen.T16.REMOVENICK_DROPS_EMPTY = true. Proof. reflexivity. Qed.
+Lemma addnick_refuses_ws : gen.T16.ADDNICK_REFUSES_WHITESPACE = true. Proof. reflexivity. Qed.
 
 Definition ne_list (nn : str * list str) : bool := match snd nn with [] => false | _ => true end.
 
@@ -33,6 +34,7 @@ Lemma refused_addnick_unchanged db u net nick valid e :
   snd (add_nick db u net nick valid) = Some e -> fst (add_nick db u net nick valid) = u.
 Proof.
   unfold add_nick. rewrite addnick_checks_first. destruct valid; cbn [negb]; [|reflexivity].
+  destruct (gen.T16.ADDNICK_REFUSES_WHITESPACE && negb (token net && token nick)); [reflexivity|].
   destruct (get_user_from_nick db net nick); cbn [fst snd]; [reflexivity|discriminate].
 Qed.
 
@@ -51,6 +53,7 @@ Lemma add_nick_keeps_nonempty db u net nick valid :
   nick_lists_nonempty u = true -> nick_lists_nonempty (fst (add_nick db u net nick valid)) = true.
 Proof.
   intro H. unfold add_nick. rewrite addnick_checks_first. destruct valid; cbn [negb]; [|exact H].
+  destruct (gen.T16.ADDNICK_REFUSES_WHITESPACE && negb (token net && token nick)); [exact H|].
   destruct (get_user_from_nick db net nick); cbn [fst]; [exact H|].
   rewrite set_nicks_nonempty. apply dict_set_forallb; [reflexivity| |exact H].
   unfold ne_list. cbn [snd]. destruct (nick_list u net) as [l|].
@@ -67,6 +70,164 @@ Proof.
   destruct (remove_first nick l) as [|x l'] eqn:E; cbn [fst]; rewrite set_nicks_nonempty.
   - apply dict_del_forallb. exact H.
   - apply dict_set_forallb; [reflexivity|reflexivity|exact H].
+Qed.
+
+(* ------------------------------------------------------------------ *)
+(* every nick dictionary that accepted addNick / removeNick calls can build is one users.conf represents:
+   the nick conjuncts of users_dom (Roundtrip.nick_ok on every entry, nicks_stable) hold *)
+Definition nicks_inv (u : user) : Prop :=
+  forallb nick_ok (u_nicks u) = true /\ NoDup (map fst (u_nicks u)).
+
+Lemma dict_set_forallb' {V} (P : str * V -> bool) k v d :
+  P (k, v) = true -> forallb P d = true -> forallb P (dict_set k v d) = true.
+Proof.
+  intro Hv. induction d as [|[k' v'] d IH]; cbn [dict_set forallb]; intro H.
+  - rewrite Hv. reflexivity.
+  - apply andb_true_iff in H as [H1 H2]. destruct (seq_eqb k k') eqn:E.
+    + apply seq_eqb_eq in E. subst k'. cbn [forallb]. rewrite Hv, H2. reflexivity.
+    + cbn [forallb]. rewrite H1, (IH H2). reflexivity.
+Qed.
+
+Lemma existsb_key_In k (l : list str) : existsb (seq_eqb k) l = true <-> In k l.
+Proof.
+  rewrite existsb_exists. split.
+  - intros (x & Hx & E). apply seq_eqb_eq in E. subst. exact Hx.
+  - intro H. exists k. split; [exact H|apply seq_eqb_refl].
+Qed.
+
+Lemma dict_set_keys {V} k (v : V) d :
+  map fst (dict_set k v d) = if existsb (seq_eqb k) (map fst d) then map fst d else map fst d ++ [k].
+Proof.
+  induction d as [|[k' v'] d IH]; [reflexivity|]. cbn [dict_set map fst existsb].
+  destruct (seq_eqb k k'); cbn [orb map fst]; [reflexivity|]. rewrite IH.
+  destruct (existsb (seq_eqb k) (map fst d)); reflexivity.
+Qed.
+
+Lemma nodup_snoc {A} (l : list A) x : NoDup l -> ~ In x l -> NoDup (l ++ [x]).
+Proof.
+  induction l as [|y l IH]; intros H Hx; [repeat constructor; intros []|].
+  inversion H as [|? ? Hn Hd]; subst. cbn [app]. constructor.
+  - intro Hin. apply in_app_or in Hin as [Hin|[Hin|[]]]; [contradiction|subst; apply Hx; left; reflexivity].
+  - apply IH; [exact Hd|intro Hin; apply Hx; right; exact Hin].
+Qed.
+
+Lemma dict_set_nodup {V} k (v : V) d : NoDup (map fst d) -> NoDup (map fst (dict_set k v d)).
+Proof.
+  intro H. rewrite dict_set_keys. destruct (existsb (seq_eqb k) (map fst d)) eqn:E; [exact H|].
+  apply nodup_snoc; [exact H|]. intro Hin. apply existsb_key_In in Hin. congruence.
+Qed.
+
+Lemma dict_del_keys_incl {V} k (d : list (str * V)) x : In x (map fst (dict_del k d)) -> In x (map fst d).
+Proof.
+  induction d as [|[k' v'] d IH]; [intros []|]. cbn [dict_del]. destruct (seq_eqb k k'); cbn [map fst].
+  - intro H. right. exact H.
+  - intros [H|H]; [left; exact H|right; apply IH; exact H].
+Qed.
+
+Lemma dict_del_nodup {V} k (d : list (str * V)) : NoDup (map fst d) -> NoDup (map fst (dict_del k d)).
+Proof.
+  induction d as [|[k' v'] d IH]; [intro H; exact H|]. cbn [dict_del map fst]. intro H. inversion H as [|? ? Hn Hd]; subst.
+  destruct (seq_eqb k k'); [exact Hd|]. cbn [map fst]. constructor; [|apply IH; exact Hd].
+  intro Hin. apply Hn. apply (dict_del_keys_incl _ _ _ Hin).
+Qed.
+
+Lemma dict_get_forallb {V} (P : str * V -> bool) k d l :
+  dict_get k d = Some l -> forallb P d = true -> P (k, l) = true.
+Proof.
+  induction d as [|[k' v'] d IH]; [discriminate|]. cbn [dict_get forallb]. intros Hg H.
+  apply andb_true_iff in H as [H1 H2]. destruct (seq_eqb k k') eqn:E.
+  - apply seq_eqb_eq in E. subst k'. inversion Hg; subst. exact H1.
+  - apply IH; assumption.
+Qed.
+
+Definition nick_str_ok (n : str) : bool := no_nl_tab n && negb (mem SP n).
+
+Lemma token_nick_str_ok n : token n = true -> nick_str_ok n = true.
+Proof.
+  intro H. pose proof (token_nonws _ H) as Hn. unfold nick_str_ok.
+  rewrite (nonws_no_nl_tab _ Hn), (nonws_nomem SP _ ws_SP Hn). reflexivity.
+Qed.
+
+Lemma nick_ok_parts nn : nick_ok nn = true ->
+  token (fst nn) = true /\ snd nn <> [] /\ forallb nick_str_ok (snd nn) = true.
+Proof.
+  unfold nick_ok. intro H. apply andb_true_iff in H as [H H3]. apply andb_true_iff in H as [H1 H2].
+  repeat split; [exact H1| |exact H3]. destruct (snd nn); [discriminate|discriminate].
+Qed.
+
+Lemma nick_ok_intro net l : token net = true -> l <> [] -> forallb nick_str_ok l = true -> nick_ok (net, l) = true.
+Proof.
+  intros H1 H2 H3. unfold nick_ok. cbn [fst snd]. rewrite H1. destruct l; [congruence|]. exact H3.
+Qed.
+
+Lemma remove_first_forallb (P : str -> bool) x l : forallb P l = true -> forallb P (remove_first x l) = true.
+Proof.
+  induction l as [|y l IH]; [reflexivity|]. cbn [remove_first forallb]. intro H. apply andb_true_iff in H as [H1 H2].
+  destruct (seq_eqb x y); [exact H2|]. cbn [forallb]. rewrite H1, (IH H2). reflexivity.
+Qed.
+
+Lemma add_nick_inv db u net nick valid : nicks_inv u -> nicks_inv (fst (add_nick db u net nick valid)).
+Proof.
+  intros [Hok Hnd]. unfold add_nick. rewrite addnick_checks_first, addnick_refuses_ws.
+  destruct valid; cbn [negb andb]; [|split; assumption].
+  destruct (token net && token nick) eqn:T; cbn [negb]; [|split; assumption].
+  apply andb_true_iff in T as [Tn Tk].
+  destruct (get_user_from_nick db net nick); cbn [fst]; [split; assumption|].
+  unfold nicks_inv. cbn [u_nicks set_nicks]. split; [|apply dict_set_nodup; exact Hnd].
+  apply dict_set_forallb'; [|exact Hok]. unfold nick_list.
+  destruct (dict_get net (u_nicks u)) as [l|] eqn:G.
+  - pose proof (dict_get_forallb _ _ _ _ G Hok) as Hl. destruct (nick_ok_parts _ Hl) as (_ & Hne & Hall). cbn [snd] in *.
+    destruct (smem nick l).
+    + apply nick_ok_intro; assumption.
+    + apply nick_ok_intro; [exact Tn|destruct l; discriminate|].
+      rewrite forallb_app, Hall. cbn [forallb]. rewrite (token_nick_str_ok _ Tk). reflexivity.
+  - apply nick_ok_intro; [exact Tn|discriminate|]. cbn. rewrite (token_nick_str_ok _ Tk). reflexivity.
+Qed.
+
+Lemma remove_nick_inv u net nick : nicks_inv u -> nicks_inv (fst (remove_nick u net nick)).
+Proof.
+  intros [Hok Hnd]. unfold remove_nick, nick_list.
+  destruct (dict_get net (u_nicks u)) as [l|] eqn:G; [|split; assumption].
+  destruct (negb (smem nick l)); [split; assumption|]. rewrite removenick_drops_empty.
+  pose proof (dict_get_forallb _ _ _ _ G Hok) as Hl. destruct (nick_ok_parts _ Hl) as (Tn & _ & Hall). cbn [fst snd] in *.
+  destruct (remove_first nick l) as [|x l'] eqn:E; cbn [fst]; unfold nicks_inv; cbn [u_nicks set_nicks].
+  - split; [apply dict_del_forallb; exact Hok|apply dict_del_nodup; exact Hnd].
+  - split; [|apply dict_set_nodup; exact Hnd]. apply dict_set_forallb'; [|exact Hok].
+    apply nick_ok_intro; [exact Tn|discriminate|]. rewrite <- E. apply remove_first_forallb. exact Hall.
+Qed.
+
+Lemma fresh_user_inv : nicks_inv fresh_user.
+Proof. split; [reflexivity|constructor]. Qed.
+
+(* the invariant is what users_dom asks of the nick dictionary *)
+Lemma fold_dict_set_app (ns : list (str * list str)) : forall acc,
+  NoDup (map fst acc ++ map fst ns) ->
+  fold_left (fun d nn => dict_set (fst nn) (snd nn) d) ns acc = acc ++ ns.
+Proof.
+  induction ns as [|[k v] ns IH]; intros acc H; [rewrite app_nil_r; reflexivity|].
+  cbn [fold_left fst snd]. rewrite dict_set_new.
+  - rewrite IH; [rewrite <- app_assoc; reflexivity|]. rewrite map_app. cbn [map fst]. rewrite <- app_assoc. exact H.
+  - destruct (existsb (seq_eqb k) (map fst acc)) eqn:E; [|reflexivity]. apply existsb_key_In in E.
+    exfalso. cbn [map fst] in H. apply NoDup_remove_2 in H. apply H. apply in_or_app. left. exact E.
+Qed.
+
+Lemma list_eqb_refl {A} (eq : A -> A -> bool) : (forall x, eq x x = true) -> forall l, list_eqb eq l l = true.
+Proof. intros He l. induction l as [|x l IH]; [reflexivity|]. cbn. rewrite He, IH. reflexivity. Qed.
+
+Lemma nicks_inv_dom u : nicks_inv u -> forallb nick_ok (u_nicks u) = true /\ nicks_stable (u_nicks u) = true.
+Proof.
+  intros [Hok Hnd]. split; [exact Hok|]. unfold nicks_stable.
+  rewrite (fold_dict_set_app (u_nicks u) [] Hnd). apply list_eqb_refl.
+  intros [a b]. cbn [fst snd]. rewrite seq_eqb_refl. apply list_eqb_refl. apply seq_eqb_refl.
+Qed.
+
+Lemma accepted_calls_domain :
+  nicks_inv fresh_user /\
+  (forall db u net nick valid, nicks_inv u -> nicks_inv (fst (add_nick db u net nick valid))) /\
+  (forall u net nick, nicks_inv u -> nicks_inv (fst (remove_nick u net nick))) /\
+  (forall u, nicks_inv u -> forallb nick_ok (u_nicks u) = true /\ nicks_stable (u_nicks u) = true).
+Proof.
+  split; [exact fresh_user_inv|]. split; [exact add_nick_inv|]. split; [exact remove_nick_inv|exact nicks_inv_dom].
 Qed.
 
 (* non-vacuity: a refused claim by an account without nicks on that network *)
